@@ -12,12 +12,13 @@ import (
 func init() { registry["C14"] = checkC14 }
 
 func checkC14(c *Ctx, r *Report) {
-	r.Explain = "Decides structural necessary conditions of attachment integrity and lifetime: (R1) content addressing — the storage key and the advertised digest of a new attachment are computed from the very bytes that are stored, and the advertised length is their length; (R2) an attachment document is deleted by the write path only after the commit succeeded, only when obsolete-attachment removal was not disabled (cross-cluster versioning, or a failed leaf scan before or after the write), and only on the miss edge of the lookup in the set of attachments still referenced by any leaf computed after the write; that set is complete or an error — every load/parse failure while collecting leaf attachments propagates; (R3) attachment documents are deleted only by the listed owners; (R4) a replication peer can fetch an attachment only while the allow-list counter for it is positive, every path after registering a revision's attachments on the allow-list reaches their removal (failed send, and every exit of the response handler), and the allow-list is only touched under its lock.; (R5) the pre-write scan of the leaves' attachments is repeated on every CAS attempt, before the update is computed; (R6) the document-level attachment metadata (of the current revision) is replaced only by a revision that becomes current. Not decided: byte identity through all APIs, histories that share digests across documents, completeness of clean-up."
+	r.Explain = "Decides structural necessary conditions of attachment integrity and lifetime: (R1) content addressing — the storage key and the advertised digest of a new attachment are computed from the very bytes that are stored, and the advertised length is their length; (R2) an attachment document is deleted by the write path only after the commit succeeded, only when obsolete-attachment removal was not disabled (cross-cluster versioning, or a failed leaf scan before or after the write), and only on the miss edge of the lookup in the set of attachments still referenced by any leaf computed after the write; that set is complete or an error — every load/parse failure while collecting leaf attachments propagates; (R3) attachment documents are deleted only by the listed owners; (R4) a replication peer can fetch an attachment only while the allow-list counter for it is positive, every path after registering a revision's attachments on the allow-list reaches their removal (failed send, and every exit of the response handler), and the allow-list is only touched under its lock.; (R5) the pre-write scan of the leaves' attachments is repeated on every CAS attempt, before the update is computed; (R6) the document-level attachment metadata (of the current revision) is replaced only by a revision that becomes current.; (R7) every extended attribute that attachment compaction (and any other reader of raw feed values) looks up in a decoded value was requested when decoding it. Not decided: byte identity through all APIs, histories that share digests across documents, completeness of clean-up."
 	c14R1(c, r)
 	c14R2(c, r)
 	c14R3(c, r)
 	c14R4(c, r)
 	c14R5(c, r)
+	c14R7(c, r)
 	c14R6(c, r)
 }
 
